@@ -301,6 +301,12 @@ def nat_pathlines(seed, count):
 
     rng = np.random.default_rng(seed)
     fails, ev = [], 0
+    import copy
+
+    def mod_state():
+        return {f"{m.__name__}.{k}": copy.deepcopy(v) for m in (P, U, V) for k, v in vars(m).items() if isinstance(v, (dict, list, set)) and not k.startswith("__")}
+
+    state0 = mod_state()
     for it in range(count):
         fam = ("simple_shear_2d", "cell_2d", "corner_2d")[it % 3]
         ax = AXES[rng.integers(6)]
@@ -361,6 +367,15 @@ def nat_pathlines(seed, count):
                 acc += U.strain_increment(t1_ - t0_, np.asarray(L(np.nan, sol((t0_ + t1_) / 2))))
             if acc > 1.25 * max_strain * (1 + 1e-3):
                 msgs.append(f"accumulated strain {acc:.3f} > 1.25 x {max_strain}")
+            # no dependence on call history: a call with other solver options in between, then the same call again
+            if it % 4 == 0:
+                try:
+                    P.get_pathline(final, u, L, lo, hi, max_strain, regular_steps=steps, rtol=3e-2, atol=3e-2)
+                except Exception:
+                    pass
+                ts2, sol2 = P.get_pathline(final, u, L, lo, hi, max_strain, regular_steps=steps)
+                if not (np.array_equal(np.asarray(ts2), ts) and all(np.array_equal(sol2(t_), sol(t_)) for t_ in tt[::12])):
+                    msgs.append("the same get_pathline call gives a different pathline after a call with other solver options (state carried between calls)")
             Lr = rng.normal(size=(3, 3)); dt_ = float(rng.normal())
             if abs(U.strain_increment(dt_, Lr) - abs(dt_) * np.abs(np.linalg.eigvalsh((Lr + Lr.T) / 2)).max()) > 1e-12:
                 msgs.append("strain_increment != |dt| max|eig(sym L)|")
@@ -369,12 +384,17 @@ def nat_pathlines(seed, count):
         if msgs:
             fails.append(dict(case=f"{seed}.{it}", checker="contracts.C18:nat_path_case", inputs=dict(seed=int(seed), it=it, count=count, final=[round(float(v), 6) for v in final], flow=fam, axes=list(ax)),
                               what=f"{fam}{ax}: " + "; ".join(msgs[:3]), known=known))
+    now = mod_state()
+    if now != state0:
+        ch = [k for k in now if now[k] != state0.get(k)]
+        fails.append(dict(case=f"{seed}.state", checker="contracts.C18:nat_path_case", inputs=dict(seed=int(seed), it=-1, count=count), known=False,
+                          what=f"module-level state changed by the calls: {ch[:3]} (a later call can depend on an earlier one)"))
     return dict(evaluations=ev, failures=fails[:8])
 
 
 def nat_path_case(seed, it, count, **kw):
     r = nat_pathlines(seed, count)
-    hit = [f for f in r["failures"] if f["case"] == f"{seed}.{it}"]
+    hit = [f for f in r["failures"] if f["case"] == (f"{seed}.{it}" if it >= 0 else f"{seed}.state")]
     return dict(ok=not hit, failures=hit)
 
 
